@@ -1,7 +1,7 @@
 (* C23 — proofs: the commit path of the model refines the cell-wise spec, and
    the headline theorems over every schedule. *)
 From Coq Require Import NArith List Bool Lia.
-From Dolt Require Import C23.Model C23.Spec.
+From Dolt Require Import C23.Model C23.Spec C23.Corr.
 Import ListNotations.
 Local Open Scope N_scope.
 
@@ -194,9 +194,9 @@ Section P.
     destruct (overlay_same_base (get s k) (get w k)) as [_ H2]. congruence.
   Qed.
 
-  Lemma ff_overlay s h w : same_table h s -> same_table w (overlay_tab U s h w).
+  Lemma ff_overlay s h w : same_table h s -> same_table (freeze U w) (overlay_tab U s h w).
   Proof.
-    intros He k. rewrite get_overlay, (He k).
+    intros He k. rewrite get_freeze, get_overlay, (He k).
     destruct (overlay_same_base (get s k) (get w k)) as [H1 _]. symmetry. exact H1.
   Qed.
 
@@ -473,6 +473,126 @@ Section P.
     exact (first_change _ _ k col Hc Hne).
   Qed.
 End P.
+
+(* ------------------------------------------------------------------ *)
+(* 7b. the model satisfies the executable statement of the property (Corr.oracle) *)
+Section O.
+  Variable U : list N.
+
+  Lemma freeze_ext t1 t2 : (forall k, get U t1 k = get U t2 k) -> freeze U t1 = freeze U t2.
+  Proof.
+    intros H. unfold freeze.
+    assert (map (fun k => (k, get U t1 k)) U = map (fun k => (k, get U t2 k)) U) as ->
+      by (apply map_ext; intros k; rewrite H; reflexivity).
+    reflexivity.
+  Qed.
+
+  (* an acknowledged commit installs exactly the overlay table; a refused one keeps the head *)
+  Lemma do_commit_eq h s w :
+    do_commit U h s w = if snd (do_commit U h s w) then (overlay_tab U s h w, true) else (h, false).
+  Proof.
+    pose proof (do_commit_refines_spec U h s w) as [_ Hs].
+    unfold do_commit in *. destruct (table_eqb U h s) eqn:Heq.
+    - cbn [fst snd] in *. f_equal. unfold overlay_tab. apply freeze_ext. intros k.
+      apply table_eqb_same in Heq. pose proof (ff_overlay U s h w Heq k) as Hk.
+      rewrite get_freeze, get_overlay in Hk.
+      destruct (inU U k) eqn:Hin.
+      + rewrite (get_fun U (fun k => overlay_row (get U s k) (get U h k) (get U w k)) k Hin). exact Hk.
+      + rewrite !get_out by exact Hin. reflexivity.
+    - pose proof (merge_tables_conflict U s h w) as Hc.
+      pose proof (merge_tables_overlay U s h w) as Ho.
+      unfold merge_tables in *. cbn [fst snd] in *.
+      destruct (existsb (fun k => is_conflict (merge_key (get U s k) (get U h k) (get U w k))) U) eqn:Hex;
+        cbn [fst snd]; [reflexivity|].
+      f_equal. unfold overlay_tab. apply freeze_ext. intros k.
+      symmetry in Hc. specialize (Ho Hc k). rewrite get_freeze, get_overlay in Ho.
+      destruct (inU U k) eqn:Hin.
+      + rewrite (get_fun U (fun k => overlay_row (get U s k) (get U h k) (get U w k)) k Hin). exact Ho.
+      + rewrite !get_out by exact Hin. reflexivity.
+  Qed.
+
+  Definition cf_of (o : sobs) : table -> table -> table -> table * bool :=
+    fun h s wk => if so_err o =? err_none then (overlay_tab U s h wk, true) else (h, false).
+
+  Lemma commit_sess_cf o i w :
+    (snd (do_commit U (w_head w) (s_snap (w_ss w i)) (s_work (w_ss w i))) = (so_err o =? err_none)) ->
+    commit_sess (cf_of o) i w = commit_sess (do_commit U) i w.
+  Proof.
+    intros H. unfold commit_sess, cf_of. rewrite (do_commit_eq (w_head w)), <- H.
+    destruct (snd (do_commit U (w_head w) (s_snap (w_ss w i)) (s_work (w_ss w i)))); reflexivity.
+  Qed.
+
+  Lemma commit_sess_ok i w :
+    fst (fst (commit_sess (do_commit U) i w)) = snd (do_commit U (w_head w) (s_snap (w_ss w i)) (s_work (w_ss w i))).
+  Proof.
+    unfold commit_sess. destruct (do_commit U (w_head w) (s_snap (w_ss w i)) (s_work (w_ss w i))); reflexivity.
+  Qed.
+
+  (* running one step with the commit function derived from the model's own result is the same step *)
+  Lemma gstep_cf_of i st w :
+    gstep U (cf_of (fst (fst (gstep U (do_commit U) i st w)))) i st w = gstep U (do_commit U) i st w.
+  Proof.
+    unfold gstep.
+    destruct st; try reflexivity;
+      try (destruct (s_active (w_ss w i)) eqn:Ha; [|reflexivity];
+           pose proof (commit_sess_ok i w) as Hok;
+           rewrite commit_sess_cf; [reflexivity|];
+           destruct (commit_sess (do_commit U) i w) as [[ok e] w'] eqn:Hc; cbn [fst snd] in *;
+           rewrite <- Hok; destruct ok; reflexivity).
+    all: destruct (exec_dml U _ (s_work (ensure_txn (w_ss w i) (w_head w)))) as [o t'] eqn:Hx;
+      destruct (negb (s_active (w_ss w i)) && s_auto (w_ss w i)); try reflexivity;
+      destruct (so_err o =? err_none) eqn:He; try reflexivity;
+      match goal with |- context [commit_sess (do_commit U) ?j ?w1] =>
+        pose proof (commit_sess_ok j w1) as Hok;
+        rewrite (commit_sess_cf _ j w1); [reflexivity|];
+        destruct (commit_sess (do_commit U) j w1) as [[ok e] w'] eqn:Hc; cbn [fst snd] in *;
+        rewrite <- Hok; destruct ok; cbn [so_err obs_err]; [exact (eq_sym He) | reflexivity]
+      end.
+  Qed.
+
+  Lemma rows_eqb_refl l : rows_eqb l l = true.
+  Proof.
+    induction l as [|[[k a] b] l IH]; [reflexivity|]. cbn [rows_eqb].
+    assert (Hc : forall c, cell_eqb c c = true) by (intros [x|]; [apply N.eqb_refl | reflexivity]).
+    rewrite N.eqb_refl, IH, !Hc. reflexivity.
+  Qed.
+
+  Lemma orun_run sched : forall w os log w' good,
+    run U sched w = (os, log, w') -> orun U sched os w good = (good, w').
+  Proof.
+    induction sched as [|[i st] rest IH]; intros w os log w' good H.
+    - cbn in H. inversion H; subst. reflexivity.
+    - unfold run in H. cbn [grun] in H. fold (run U) in H.
+      pose proof (gstep_cf_of i st w) as Hcf.
+      pose proof (gstep_event U (do_commit U) i st w) as Hev.
+      destruct (gstep U (do_commit U) i st w) as [[o ev] w1] eqn:Hs. cbn [fst] in Hcf.
+      specialize (Hev o ev w1 eq_refl).
+      destruct (run U rest w1) as [[os1 evs] w2] eqn:Hr. inversion H; subst. clear H.
+      cbn [orun]. fold (cf_of o). rewrite Hcf.
+      assert (Hg : match ev with
+                   | Some e => if conflicts_b U (e_snap e) (e_before e) (e_work e) then so_err o =? err_retry else true
+                   | None => true
+                   end = true).
+      { destruct ev as [e|]; [|reflexivity].
+        destruct Hev as (_ & Hc & _ & _ & Hf).
+        pose proof (commit_ok_iff U e Hc) as Hi.
+        destruct (conflicts_b U (e_snap e) (e_before e) (e_work e)); [|reflexivity].
+        cbn [negb] in Hi. destruct (Hf Hi) as [He _]. rewrite He. reflexivity. }
+      rewrite Hg, andb_true_r. eapply IH. exact Hr.
+  Qed.
+
+  Theorem oracle_accepts_model_U init autos sched :
+    oracle {| i_U := U; i_init := init; i_autos := autos; i_sched := sched |}
+           (model_obs {| i_U := U; i_init := init; i_autos := autos; i_sched := sched |}) = true.
+  Proof.
+    unfold oracle, model_obs. cbn [i_U i_init i_autos i_sched].
+    destruct (run U sched (world0 init autos)) as [[os log] w'] eqn:Hr. cbn [o_steps o_final].
+    rewrite (orun_run sched _ os log w' true Hr). cbn [andb]. apply rows_eqb_refl.
+  Qed.
+End O.
+
+Theorem oracle_accepts_model i : oracle i (model_obs i) = true.
+Proof. destruct i as [U init autos sched]. apply oracle_accepts_model_U. Qed.
 
 (* ------------------------------------------------------------------ *)
 (* 8. non-vacuity: a schedule with a cell-wise merge, a refused commit and a retry *)
